@@ -203,6 +203,27 @@ fn switch_cases(out: &mut Out, rng: &mut Sm, thorough: bool) {
         }
         let mut t = Tape::new(tape.clone());
         let (a, b) = prio::verif_hooks::prng_switch_fields(Shared(&mut t), n1, n2);
+        // the definition, independent of the buffering: successive accepted chunks of the tape, 8 bytes each for
+        // the first field, then — from the byte after the last one consumed — 32 bytes each for the second
+        {
+            use prio::field::FieldElement;
+            let mut pos = 0usize;
+            let mut ea: Vec<Field64> = vec![];
+            while ea.len() < n1 && pos + 8 <= tape.len() {
+                if let Ok(x) = Field64::try_from_random(&tape[pos..pos + 8]) {
+                    ea.push(x);
+                }
+                pos += 8;
+            }
+            let mut eb: Vec<Field255> = vec![];
+            while eb.len() < n2 && pos + 32 <= tape.len() {
+                if let Ok(x) = Field255::try_from_random(&tape[pos..pos + 32]) {
+                    eb.push(x);
+                }
+                pos += 32;
+            }
+            out.oracle(a == ea && b == eb, || format!("prng2 {} {} {}", n1, n2, hex(&tape)), || "the outputs across the field switch are not the successive accepted chunks of the seed stream".into());
+        }
         out.case(format!("prng2 {} {} {}", n1, n2, hex(&tape)), format!("{} {} {}", enc(&a), enc(&b), t.pos));
         out.count("prng2");
     }
@@ -236,12 +257,21 @@ fn stream_of<P: Xof<N>, const N: usize>(seed: &[u8; N], dst: &[Vec<u8>], binder:
     let mut s = P::seed_stream(seed, &d, &b);
     let mut out = vec![];
     for n in sizes {
-        let mut buf = vec![0u8; *n];
-        s.fill_bytes(&mut buf);
-        out.extend_from_slice(&buf);
+        // sizes at or above WORD are word reads through the `rand` interface: WORD + 4 = next_u32, WORD + 8 = next_u64
+        if *n == WORD + 4 {
+            out.extend_from_slice(&s.next_u32().to_le_bytes());
+        } else if *n == WORD + 8 {
+            out.extend_from_slice(&s.next_u64().to_le_bytes());
+        } else {
+            let mut buf = vec![0u8; *n];
+            s.fill_bytes(&mut buf);
+            out.extend_from_slice(&buf);
+        }
     }
     out
 }
+
+const WORD: usize = 1 << 20;
 
 fn xof_cases<P: Xof<N>, const N: usize>(out: &mut Out, rng: &mut Sm, kind: &str, rounds: usize) {
     for i in 0..rounds {
@@ -259,11 +289,18 @@ fn xof_cases<P: Xof<N>, const N: usize>(out: &mut Out, rng: &mut Sm, kind: &str,
         while tot < 64 {
             let n = rng.below(20) as usize;
             let n = n.min(64 - tot);
-            sizes.push(n);
-            tot += n;
+            // every fourth read goes through the word interface (4 or 8 bytes) when it fits
+            if rng.below(4) == 0 && 64 - tot >= 8 {
+                let w = if rng.below(2) == 0 { 4 } else { 8 };
+                sizes.push(WORD + w);
+                tot += w;
+            } else {
+                sizes.push(n);
+                tot += n;
+            }
         }
         let split = stream_of::<P, N>(&seed, &dparts, &bparts, &sizes);
-        out.oracle(split == one, || format!("xof {} seed={} dst={} binder={} sizes={:?}", kind, hex(&seed), pstr(&dparts), pstr(&bparts), sizes), || "stream depends on the splitting or the read sizes".into());
+        out.oracle(split == one, || format!("xof {} seed={} dst={} binder={} sizes={:?}", kind, hex(&seed), pstr(&dparts), pstr(&bparts), sizes.iter().map(|n| if *n >= WORD { format!("word{}", (n - WORD) * 8) } else { n.to_string() }).collect::<Vec<_>>()), || "stream depends on the splitting, the read sizes or the use of the word interface".into());
         // into_seed is the prefix
         let d: Vec<&[u8]> = dparts.iter().map(|x| x.as_slice()).collect();
         let mut x = P::init(&seed, &d);
